@@ -58,6 +58,25 @@ func (w *originWorld) Do(st Step) string {
 	})
 }
 
+// onBigStack runs f on a fresh goroutine whose stack has already been grown: the calls of this family must not depend on
+// how much stack the replayer happens to have left (a stack growth inside a relocated origin is the known finding F5,
+// decided by C03's depth sweep, not here)
+func onBigStack(f func()) (p string) {
+	done := make(chan string)
+	go func() {
+		touchStack(0)
+		done <- catch(f)
+	}()
+	return <-done
+}
+
+//go:noinline
+func touchStack(n int) int {
+	var buf [48 << 10]byte
+	buf[n%len(buf)] = byte(n)
+	return int(buf[(n+7)%len(buf)])
+}
+
 func whose(r, a int) string {
 	for t, k := range tnum {
 		if r == 1000*k+a {
@@ -74,12 +93,14 @@ func (w *originWorld) Observe(st Step) map[string]string {
 	switch st.Str("op") {
 	case "Call":
 		var r int
-		p := catch(func() { r = w.target(st.Str("t"))(a) })
+		p := onBigStack(func() { r = w.target(st.Str("t"))(a) })
 		switch {
 		case p != "":
 			out["res"] = p
 		case r == 5100+a:
 			out["res"] = "cb"
+		case r >= 6000+1000 && r < 6000+4000:
+			out["res"] = "cbo-twice:" + whose(r-6000, a) // the origin re-entered the mock (F5)
 		case r >= 3000+1000 && r < 3000+4000:
 			out["res"] = "cbo:" + whose(r-3000, a)
 		default:
@@ -88,7 +109,7 @@ func (w *originWorld) Observe(st Step) map[string]string {
 	case "CallPh":
 		var r int
 		ov := w.ovar(st.Str("p"))
-		if p := catch(func() { r = (*ov)(a) }); p != "" {
+		if p := onBigStack(func() { r = (*ov)(a) }); p != "" {
 			out["res"] = p
 		} else {
 			out["res"] = "orig:" + whose(r, a)
